@@ -353,10 +353,25 @@ func c17(c *Ctx) {
 		}
 		for _, b := range fn.Blocks {
 			for _, ins := range b.Instrs {
-				st, ok := ins.(*ssa.Store)
-				if !ok {
+				var stVal ssa.Value
+				var stAddr ssa.Value
+				var stPos token.Pos
+				switch x := ins.(type) {
+				case *ssa.Store:
+					stVal, stAddr, stPos = x.Val, x.Addr, x.Pos()
+				case *ssa.MapUpdate:
+					// a cursor parked in a map held by a shared node / package variable
+					if u, ok := x.Map.(*ssa.UnOp); ok {
+						stVal, stAddr, stPos = x.Value, u.X, x.Pos()
+					}
+				}
+				if stVal == nil {
 					continue
 				}
+				st := struct {
+					Val  ssa.Value
+					Addr ssa.Value
+				}{stVal, stAddr}
 				target := ""
 				if fa := fieldAddrChain(st.Addr); fa != nil {
 					_, fv, _ := core.FieldAddrOf(fa)
@@ -384,7 +399,7 @@ func c17(c *Ctx) {
 					continue
 				}
 				nviol++
-				r.Violate("R17.2", fmt.Sprintf("%s/stores-cursor:%s", core.FuncName(fn), strings.Fields(target)[1]), c.P.Pos(st.Pos()), "a "+core.TypeNameOf(vt)+" (cursor) is stored into "+target+": separately obtained readers/iterators would share mutable state")
+				r.Violate("R17.2", fmt.Sprintf("%s/stores-cursor:%s", core.FuncName(fn), strings.Fields(target)[1]), c.P.Pos(stPos), "a "+core.TypeNameOf(vt)+" (cursor) is stored into "+target+": separately obtained readers/iterators would share mutable state")
 			}
 		}
 	}
